@@ -4,6 +4,7 @@ set -e
 cd /verif
 export GOFLAGS=-mod=mod GOPROXY=off GOSUMDB=off GOTOOLCHAIN=local
 mkdir -p bin work evidence replays
+go run ./cmd/genwin /verif/harness/gen >/dev/null
 go build -o bin/check ./cmd/check
 go build -o bin/symgo ./cmd/symgo
 echo "setup ok"
